@@ -447,7 +447,8 @@ PLANS["C07"] = {
 
 PLANS["C08"] = {
     "oom_is_excluded": True,
-    "stages": {"quick": [stages.memcheck_stage("C08", "", 32000, 1600000)], "thorough": [stages.memcheck_stage("C08", "", 32000, 1600000), stages.miri_stage("C08", "", 60)]},
+    "needs_repo_bin": True,
+    "stages": {"quick": [stages.memcheck_stage("C08", "", 32000, 1600000), stages.c08_repl_stage], "thorough": [stages.memcheck_stage("C08", "", 32000, 1600000), stages.c08_repl_stage, stages.miri_stage("C08", "", 60)]},
     "jobs": {
         "quick": [("", "release", 1200000), ("", "dev", 240000)],
         "thorough": [("", "release", 48000000), ("", "dev", 9600000)],
@@ -473,5 +474,5 @@ PLANS["C08"] = {
     "require": [need_set("words_reached", 248), need_set("xerr_variants", 22), need("call:eval", 60000), need("call:compile", 60000),
                 need("call:run", 15000), need("call:next", 15000), need("call:rnext", 60000), need("call:pretty_error", 200000),
                 need("call:format_cell", 200000), need("soups:long-lived", 30000), need_set("arity1_class_tuples", 38),
-                need_set("arity2_class_tuples", 1000), need_set("arity3_class_tuples", 3000), need("memcheck_cases_without_report", 20000), need("soups:defining-words", 60000)],
+                need_set("arity2_class_tuples", 1000), need_set("arity3_class_tuples", 3000), need("memcheck_cases_without_report", 20000), need("soups:defining-words", 60000), need("repl_sessions", 200), need_set("repl_commands_typed", 7)],
 }
